@@ -456,7 +456,17 @@ func toOps(hist []opRec, clipAfter uint64) []porcupine.Operation {
 			ret = int64(clipAfter) + 1_000_000
 			out = Out{Wild: true}
 		}
-		ops = append(ops, porcupine.Operation{ClientId: h.Client, Input: h.In, Output: out, Call: int64(h.Call), Return: ret})
+		in := h.In
+		if in.Kind != OpJump {
+			k := 0
+			for _, j := range hist {
+				if j.In.Kind == OpJump && j.Call < h.Ret && h.Call < j.Ret && k < len(in.Slack) {
+					in.Slack[k] = j.In.TTL
+					k++
+				}
+			}
+		}
+		ops = append(ops, porcupine.Operation{ClientId: h.Client, Input: in, Output: out, Call: int64(h.Call), Return: ret})
 	}
 	return ops
 }
